@@ -28,9 +28,31 @@ import time
 import hashlib
 
 VERIF = os.path.dirname(os.path.dirname(os.path.abspath(__file__)))
-REPO = "/repo"
+# The checks verify /repo. VERIF_REPO=<dir> points the same machinery at another checkout of the
+# repository (used only to evaluate seeded changes in scratch worktrees without touching /repo):
+# the three helper crates are then copied into the work directory with their path dependency rewritten.
+REPO = os.environ.get("VERIF_REPO", "/repo").rstrip("/") or "/repo"
 KANI_CRATE = os.path.join(VERIF, "kani")
 NATIVE_CRATE = os.path.join(VERIF, "native")
+
+
+def relocate_crates(workdir):
+    """Copy kani/, native/, replay_native/ into workdir with `path = "/repo"` → REPO."""
+    global KANI_CRATE, NATIVE_CRATE, REPLAY_CRATE
+    base = os.path.join(workdir, "crates")
+    for name in ("kani", "native", "replay_native"):
+        dst = os.path.join(base, name)
+        shutil.copytree(os.path.join(VERIF, name), dst, ignore=shutil.ignore_patterns("target"))
+        for root, _d, files in os.walk(dst):
+            for fn in files:
+                if fn == "Cargo.toml":
+                    fp = os.path.join(root, fn)
+                    t = open(fp).read().replace('path = "/repo"', f'path = "{REPO}"')
+                    t = t.replace('path = "../kani/src/lib.rs"', f'path = "{base}/kani/src/lib.rs"')
+                    open(fp, "w").write(t)
+    KANI_CRATE = os.path.join(base, "kani")
+    NATIVE_CRATE = os.path.join(base, "native")
+    REPLAY_CRATE = os.path.join(base, "replay_native")
 GUARD = "felixpalmer_a5_rs_verif"
 IGNORED_DESC = (
     "NaN on ",
@@ -178,6 +200,10 @@ class Job:
         cmd = [
             "cargo", "kani", "--harness", f"{self.module}::{self.name}", "--exact",
             "--target-dir", self.target, "-Z", "stubbing", "--no-assertion-reach-checks", "--verbose",
+            # CBMC-level float checks (NaN, float overflow) are not Rust failures and make float queries
+            # intractable; Rust's own overflow/division/shift checks are compiled into the GOTO program
+            # by rustc (-C overflow-checks=on) and stay on.
+            "-Z", "unstable-options", "--no-overflow-checks",
         ]
         cmd += list(self.spec.get("kani_args", []))
         cmd += list(extra)
@@ -191,7 +217,7 @@ class Job:
             return []
         # Kani's output parser aborts on cbmc's --show-loops JSON, but only after the per-harness
         # GOTO binary has been written and its path logged; cbmc then lists the loops directly.
-        cmd = self.kani_cmd(["-Z", "unstable-options", "--cbmc-args", "--show-loops"])
+        cmd = self.kani_cmd(["--cbmc-args", "--show-loops"])
         run_limited(cmd, env, KANI_CRATE, 900, 16, self.logfile)
         text = open(self.logfile, errors="replace").read()
         m = re.search(r"Reading GOTO program from file (\S+\.out)", text)
@@ -231,8 +257,7 @@ class Job:
             extra = []
             pairs = self.discover_unwindset(env)
             if pairs:
-                extra = ["-Z", "unstable-options", "--cbmc-args", "--unwindset",
-                         ",".join(f"{l}:{b}" for l, b in pairs)]
+                extra = ["--cbmc-args", "--unwindset", ",".join(f"{l}:{b}" for l, b in pairs)]
                 r["unwindset"] = [f"{l}:{b}" for l, b in pairs]
             cmd = ["/usr/bin/time", "-f", "VERIF_MAXRSS_KB=%M"] + self.kani_cmd(extra)
             rc, timed_out, wall = run_limited(
@@ -535,6 +560,9 @@ def run_property(prop, tier, seed, a):
     inconclusive = []
     known_lines = []
     try:
+        if REPO != "/repo":
+            relocate_crates(workdir)
+            log(f"NOTE: checking {REPO} instead of /repo (VERIF_REPO set)")
         repo_rev = subprocess.run(["git", "-C", REPO, "rev-parse", "HEAD"], capture_output=True, text=True).stdout.strip()
         repo_dirty = bool(subprocess.run(["git", "-C", REPO, "status", "--porcelain", "--untracked-files=no"], capture_output=True, text=True).stdout.strip())
         write_replay_dispatch(gen_dir)
@@ -640,7 +668,7 @@ def run_property(prop, tier, seed, a):
             rc_final = 1
         elif inconclusive:
             rc_final = 2
-        if not a.no_evidence and not a.only:
+        if not a.no_evidence and not a.only and REPO == "/repo":
             write_evidence(prop, tier, seed, pdef, jobs, native_info, findings, known_lines, violations, inconclusive,
                            time.time() - t0, repo_rev, repo_dirty)
         log(f"== {prop} {tier}: {'PASS' if rc_final == 0 else ('VIOLATION' if rc_final == 1 else 'INCONCLUSIVE')} in {time.time() - t0:.0f} s")
@@ -655,7 +683,7 @@ def run_property(prop, tier, seed, a):
 
 
 def write_replay(prop, name, payload):
-    d = os.path.join(VERIF, "replays")
+    d = os.environ.get("VERIF_REPLAY_DIR") or os.path.join(VERIF, "replays")
     os.makedirs(d, exist_ok=True)
     h = hashlib.sha1(json.dumps(payload, sort_keys=True, default=str).encode()).hexdigest()[:10]
     p = os.path.join(d, f"{prop}-{name}-{h}.json")
@@ -759,7 +787,7 @@ def write_evidence(prop, tier, seed, pdef, jobs, native_info, findings, known_li
             "samples": samples,
             "obligations": obligations,
             "discharged": discharged,
-            "checker_cmd": "cargo kani --harness <module>::<name> --exact -Z stubbing --no-assertion-reach-checks [--cbmc-args --unwindset …] (Kani 0.68.0, CBMC 6.11.0, CaDiCaL)",
+            "checker_cmd": "cargo kani --harness <module>::<name> --exact -Z stubbing --no-assertion-reach-checks -Z unstable-options --no-overflow-checks [--cbmc-args --unwindset …] (Kani 0.68.0, CBMC 6.11.0, CaDiCaL)",
             "trusted_base": pdef.get("trusted_base", []) + ["Kani 0.68.0 / CBMC 6.11.0 / CaDiCaL", "rustc MIR → GOTO translation by kani-compiler"],
             "exhaustive": bool(jobs) and all(j.spec.get("exhaustive") for j in jobs),
             "explanation": pdef.get("explanation", ""),
